@@ -47,7 +47,7 @@ META = dict(
            'NumPy object arrays carry z3 reals through np.piecewise and polyval (Python-level code)'],
     assumptions=['NIST ITS-90 tables as shipped in thermocouples_reference 0.20 (independent package)',
                  'inverse tolerance 0.1 deg C on the ITS-90 inverse ranges'],
-    buckets=dict(all=['forward-identity', 'total', 'continuity', 'monotone', 'inverse', 'scaling-direction']),
+    buckets=dict(all=['forward-identity', 'total', 'continuity', 'monotone', 'inverse', 'scaling-direction', 'elementwise']),
     replays_per_signature=3,
     validate_samples=0,
     explanation="Each path of the real piecewise code ends in nlsat obligations; see MANIFEST text.",
@@ -71,6 +71,9 @@ def tasks(tier, seed):
         ts.append(dict(kind='total', type=t, direction='fwd'))
         ts.append(dict(kind='total', type=t, direction='inv'))
         ts.append(dict(kind='continuity', type=t))
+        for d in ('fwd', 'inv'):
+            ts.append(dict(kind='elementwise', type=t, direction=d, n=2))
+        ts.append(dict(kind='elementwise', type=t, direction='fwd', n=3))
         tab = ref_table(t)
         for i in range(len(tab)):
             ts.append(dict(kind='monotone', type=t, piece=i))
@@ -324,6 +327,26 @@ def run_task(task):
             raise Violation(dict(what='inverse-not-increasing', inputs=dict(v=str(m.eval(vv, True))), type=t))
         ctx.note('inverse')
 
+    def elementwise(ctx):
+        # a conversion applied to an array equals the conversion applied to each element (2 and 3 elements, any order)
+        f = tc.celsius_to_mv if task['direction'] == 'fwd' else tc.mv_to_celsius
+        n = task['n']
+        xs = [z3.Real('x%d' % i) for i in range(n)]
+        for i, x in enumerate(xs):
+            ctx.inputs['x%d' % i] = x
+        arr = f(rarr(xs))
+        ecs = [row[3] for row in tab if row[3] is not None]
+        for i, x in enumerate(xs):
+            one = f(rarr([x]))[0]
+            if not isinstance(arr[i], SymReal) or not isinstance(one, SymReal):
+                m = ctx.get_model()
+                raise Violation(dict(what='not-total', inputs={('x%d' % j): str(m.eval(v, True)) for j, v in enumerate(xs)}, type=t))
+            m = _nra(ctx, [arr[i].e != one.e], 'elementwise')
+            if m is not None:
+                raise Violation(dict(what='array-differs-from-elementwise', inputs={('x%d' % j): str(m.eval(v, True)) for j, v in enumerate(xs)},
+                                     type=t, element=i, direction=task['direction']))
+        ctx.note('elementwise')
+
     def scaling(ctx):
         from nptdms.scaling import ThermocoupleScaling
         x = z3.Real('x')
@@ -349,7 +372,8 @@ def run_task(task):
                                  direction=task['direction']))
         ctx.note('scaling-direction')
 
-    fn = dict(forward=forward, total=total, continuity=continuity, monotone=monotone, inverse=inverse, scaling=scaling, invmono=invmono)[kind]
+    fn = dict(forward=forward, total=total, continuity=continuity, monotone=monotone, inverse=inverse, scaling=scaling, invmono=invmono,
+              elementwise=elementwise)[kind]
     st = explore(fn, max_paths=2000, time_budget=1500)
     st.pop('wall_s', None)
     return st
@@ -425,6 +449,16 @@ def replay(art):
                     a, b = float(tc.celsius_to_mv(np.array([lo]))[0]), float(tc.celsius_to_mv(np.array([hi]))[0])
                     if not abs(a - b) <= float(CONT_EPS) * 1.01:
                         return dict(sig=signature(dict(task=task, what=what)), breakpoint=bp, below=a, at=b)
+        return None
+    if kind == 'elementwise':
+        f = tc.celsius_to_mv if task['direction'] == 'fwd' else tc.mv_to_celsius
+        xs = [_f(inp['x%d' % i]) for i in range(task['n'])]
+        arr = f(np.array(xs))
+        for i, x in enumerate(xs):
+            one = float(f(np.array([x]))[0])
+            a = float(arr[i])
+            if not (a == one or (a != a and one != one)):
+                return dict(sig=signature(dict(task=task, what=what)), xs=xs, element=i, array=a, single=one)
         return None
     if kind == 'total':
         x = _f(inp['x'])
